@@ -86,6 +86,8 @@ class Control(BaseAPIClass):
             pre_post = 'post'
         else:
             pre_post = 'pre'
+        # keep an own copy of the caller's array
+        control_operation = np.array(control_operation, dtype=NpDtype)
 
         if isinstance(time, int):
             steps = self._step_controls[pre_post].keys()
